@@ -234,6 +234,10 @@ func (t *Tokenizer) tokenizeBuffer(buf []byte, last bool) {
 					}
 				}
 			}
+			if !t.exkey {
+				// A key and colon with no value.
+				t.newError(off, "unexpected object close")
+			}
 			t.starts = t.starts[0:depth]
 			t.handler.ObjectEnd()
 			t.exkey = 0 < len(t.starts) && t.starts[len(t.starts)-1] == objectStart
